@@ -18,6 +18,7 @@ package c09
 
 import (
 	"bytes"
+	"encoding/json"
 	"fmt"
 	"reflect"
 	"sync"
@@ -458,6 +459,24 @@ func checkBlock(ch *sim.Chain, b types.Block, bs consensus.V1BlockSupplement, la
 		start := make(chan struct{})
 		outs := make([]outcome, goroutines)
 		ids := make([]types.BlockID, goroutines)
+		// the wire forms of the same block, produced while the other goroutines validate, apply and encode it too
+		wire := func() (out [3]string) {
+			defer func() {
+				if r := recover(); r != nil {
+					out[0] = fmt.Sprintf("panic: %v", r)
+				}
+			}()
+			out[0] = string(snapBlock(b, bs))
+			if first.verdict == "<accepted>" {
+				out[1] = string(enc(types.V2Block(b))) // compressed (multiproof) form: defined for blocks with valid proofs
+			}
+			if js, err := json.Marshal(b); err == nil {
+				out[2] = string(js)
+			}
+			return
+		}
+		wireSeq := wire()
+		wires := make([][3]string, goroutines)
 		var mu sync.Mutex
 		running, maxRunning := 0, 0
 		for g := 0; g < goroutines; g++ {
@@ -473,6 +492,7 @@ func checkBlock(ch *sim.Chain, b types.Block, bs consensus.V1BlockSupplement, la
 				mu.Unlock()
 				outs[g] = run(ch, b, bs)
 				ids[g] = b.ID()
+				wires[g] = wire()
 				for _, t := range b.V2Transactions() {
 					_ = cs.InputSigHash(t)
 					for _, in := range t.SiacoinInputs {
@@ -496,6 +516,11 @@ func checkBlock(ch *sim.Chain, b types.Block, bs consensus.V1BlockSupplement, la
 		for g := range outs {
 			if !outs[g].equal(first) || ids[g] != b.ID() {
 				return stats.Failf("C09/concurrency", "goroutine %d of %d got a different result than the sequential run: %q vs %q (%s)", g, goroutines, outs[g].verdict, first.verdict, label)
+			}
+			for k, form := range []string{"plain binary", "compressed binary", "JSON"} {
+				if wires[g][k] != wireSeq[k] {
+					return stats.Failf("C09/concurrency/encoding", "goroutine %d of %d produced a different %s encoding of the block than a lone caller (%d vs %d bytes) (%s)", g, goroutines, form, len(wires[g][k]), len(wireSeq[k]), label)
+				}
 			}
 		}
 		if err := pure("concurrent calls"); err != nil {
